@@ -368,9 +368,11 @@ func c10(tier string) {
 				case <-time.After(2 * time.Second):
 					pb, _ := os.ReadFile(progFile)
 					cpu := procCPUTicks(cmd.Process.Pid)
-					if string(pb) != last || cpu-lastCPU > 20 {
-						// a new round, or the process is computing (a loaded machine makes rounds slow, not idle)
+					if string(pb) != last {
 						last, lastChange, lastCPU = string(pb), time.Now(), cpu
+					} else if time.Since(lastChange) > 300*time.Second && cpu-lastCPU > 1000 {
+						// no new round, but more than 10 s of CPU went into this window: computing (a loaded machine makes rounds slow, not idle)
+						lastChange, lastCPU = time.Now(), cpu
 					} else if time.Since(lastChange) > 300*time.Second {
 						stalled = true
 						_ = cmd.Process.Signal(syscall.SIGQUIT)
@@ -396,7 +398,7 @@ func c10(tier string) {
 				}
 			}
 			if blocked > 0 {
-				ctx.Violation("concurrent-calls-blocked", fmt.Sprintf("GOMAXPROCS=%s: round %s of the concurrent workload made no progress and used no CPU for 300 s; %d goroutines are blocked inside the library (goroutine dump in the replay file)", procs, strings.TrimSpace(last0(progFile)), blocked), map[string]any{"goroutine_dump": clip(dump, 20000)})
+				ctx.Violation("concurrent-calls-blocked", fmt.Sprintf("GOMAXPROCS=%s: round %s of the concurrent workload made no progress for 300 s during which the process used less than 10 s of CPU; %d goroutines are blocked inside the library (goroutine dump in the replay file)", procs, strings.TrimSpace(last0(progFile)), blocked), map[string]any{"goroutine_dump": clip(dump, 20000)})
 			} else {
 				ctx.Inconclusive(fmt.Sprintf("GOMAXPROCS=%s: the concurrent workload stalled but no goroutine is blocked inside the library (loaded machine?)", procs))
 			}
